@@ -2173,7 +2173,9 @@ class CIMInstanceName(_CIMComparisonMixin, SlottedPickleMixin):
         if self.namespace is not None:
             ret.append(case(self.namespace))
 
-        if self.namespace is not None or format != 'historical':
+        if self.namespace is not None or format != 'historical' or \
+                self.host is not None:
+            # with a host, '//host/Class' would not be parseable
             ret.append(':')
 
         ret.append(case(self.classname))
@@ -3779,7 +3781,9 @@ class CIMClassName(_CIMComparisonMixin, SlottedPickleMixin):
         if self.namespace is not None:
             ret.append(case(self.namespace))
 
-        if self.namespace is not None or format != 'historical':
+        if self.namespace is not None or format != 'historical' or \
+                self.host is not None:
+            # with a host, '//host/Class' would not be parseable
             ret.append(':')
 
         ret.append(case(self.classname))
